@@ -113,6 +113,7 @@ package bscript
 //@   ensures[C15.append_push] (=> (= err nil) (= (bytes s) (bcat (old (bytes s)) (bcat (spec.pd (len d)) (old (bytes d))))))
 //@ func bscript.(*Script).AppendOpcodes
 //@   bytes token
+//@   opt index-fn 1
 //@   opt writes s
 //@   assigns (cell s) (elems s)
 //@   opt forall-patterns 1
